@@ -109,11 +109,11 @@ theorem foldl_avg (m : Nat) (D S : List PyId → Rat) (n : Rat) (l : List (PyId 
     rw [ih (fun q hq => hl q (List.mem_cons_of_mem _ hq)), hp.2, add_div]
     ring
 
-theorem meanFaceEditDistance_eq {h : Net} (hw : h.WF) (hne : ∀ p ∈ h.edges, p.2 ≠ [])
+theorem meanFaceEditDistance_eq {h : Net} (hw : h.WF)
     (hO : Orderable h.nodes) (m : Nat) (hm1 : 1 ≤ m) (x nz : Bool) :
     meanFaceEditDistance h m x nz = some (specMFED h m x nz) := by
   unfold meanFaceEditDistance
-  rw [maximalEdges_eq hw hne]
+  rw [maximalEdges_eq hw]
   have e1 : sizeGeq (specMaximal h) (m + x.toNat) = specFaces h m x := rfl
   simp only [e1]
   congr 1
